@@ -1,5 +1,5 @@
 CONSTANTS
-  Tok = {1, 2}
+  Tok = {1, 2, 3}
   MaxLen = 8
   Phase = 0
   Mode = "both"
